@@ -3,7 +3,7 @@ import LeptosModel.Model.Store
 # C16 — store writes notify exactly the fields on the written path
 
 Property theorems about `Model/Store` (see its header for the map to the Rust code), which models /repo
-**after** fix-c16-1 (`FieldKeys::new`), fix-c16-2 (`AtIndex::writer`), fix-c16-3 (`track_field`).
+**after** fix-c16-1 (`FieldKeys::new`), fix-c16-2 (`AtIndex::writer`), fix-c16-3 (`track_field`), fix-c16-4 (`iter_unkeyed`).
 
 Paths (root store, struct fields, `unwrap()`, elements by index, keyed fields), any depth:
 * `C16_notify_iff_related` — a write through `p` and a reader of `q` share a trigger iff `p`, `q` are prefix-related.
@@ -25,7 +25,8 @@ Paths (root store, struct fields, `unwrap()`, elements by index, keyed fields), 
 Regression (the code before the repairs, `…Old` definitions): `C16_segment_collision_witness`,
 `C16_keys_stable_old_false`, `C16_keys_stable_old_partial`, `C16_keys_boundary_old` (F-C16-1);
 `C16_index_write_wakes_cousin_witness` (F-C16-2); `C16_keyed_field_misses_root_witness`,
-`C16_at_keyed_misses_parent_witness`, `C16_at_index_misses_parent_witness` (F-C16-3).
+`C16_at_keyed_misses_parent_witness`, `C16_at_index_misses_parent_witness` (F-C16-3);
+`C16_iter_unkeyed_misses_ancestor_witness` (F-C16-7).
 
 Witnesses (kernel `decide` on concrete machine histories) of the defects that remain:
 `C16_patch_keyed_by_index_witness` (F-C16-4), `C16_stale_keys_panic_witness` (F-C16-5),
@@ -1269,15 +1270,15 @@ theorem read_plainChain (st : St) (c : Chain) (hpl : ∀ a ∈ c, a.isPlain = tr
 /-- one run of a reader of the field addressed by a chain of plain accessors (struct fields, elements by
 index, keyed fields): it re-subscribes to exactly `trackSet` of its path and logs the current value -/
 theorem runEff_plain (st : St) (e : Nat) (x : Eff)
-    (he : st.effs[e]? = some x) (hpl : ∀ a ∈ x.chain, a.isPlain = true) (hi : x.iter = false) :
+    (he : st.effs[e]? = some x) (hpl : ∀ a ∈ x.chain, a.isPlain = true) (hi : x.kind = .plain) :
     runEff st e =
       { st with subs := (trackSet (chainPath x.chain)).foldl (fun m t => subscribe m e t) (unsubscribeAll st.subs e),
                 log := st.log ++ [(e, seenAt st.val (chainPath x.chain))] } := by
   unfold runEff
-  simp only [he, hi]
+  simp only [he, runKind, hi, trackAndRead]
   have w1 := walk_plainChain { st with subs := unsubscribeAll st.subs e } x.chain hpl
   obtain ⟨a1, _, _, _, _, _, a7, _⟩ := w1
-  simp only [Bool.false_eq_true, if_false, a1, a7]
+  simp only [a1, a7]
   have hr := read_plainChain { st with subs := unsubscribeAll st.subs e } x.chain hpl
   simp only at hr
   have hr' : (walk { st with subs := unsubscribeAll st.subs e } x.chain).2.read st.val
@@ -1491,7 +1492,7 @@ theorem C16_write_wakes_iff_related (st : St) (c : Chain) (q : Path) (w : Val) (
     (hp : (st.val.get (chainPath c)).isSome) :
     (stepOp st (.set c w)).1.val = st.val.set (chainPath c) w ∧
     ∃ x', (stepOp st (.set c w)).1.effs[e]? = some x' ∧
-      x'.chain = x.chain ∧ x'.iter = x.iter ∧ x'.imm = x.imm ∧
+      x'.chain = x.chain ∧ x'.kind = x.kind ∧ x'.imm = x.imm ∧
       (x'.woken = true ↔ (x.woken = true ∨ chainPath c <+: q ∨ q <+: chainPath c)) := by
   cases hg : st.val.get (chainPath c) with
   | none => simp [hg] at hp
@@ -1511,7 +1512,7 @@ theorem C16_write_wakes_iff_related (st : St) (c : Chain) (q : Path) (w : Val) (
 /-- after its own run a reader of the field addressed by a chain of plain accessors is subscribed to
 exactly `trackSet` of its path -/
 theorem C16_run_subscribes (st : St) (e : Nat) (x : Eff)
-    (he : st.effs[e]? = some x) (hpl : ∀ a ∈ x.chain, a.isPlain = true) (hi : x.iter = false) :
+    (he : st.effs[e]? = some x) (hpl : ∀ a ∈ x.chain, a.isPlain = true) (hi : x.kind = .plain) :
     ∀ t, (subsOf (runEff st e).subs t).contains e = true ↔ t ∈ trackSet (chainPath x.chain) := by
   intro t
   rw [runEff_plain st e x he hpl hi]
@@ -1525,7 +1526,7 @@ put in place, otherwise unchanged. -/
 theorem C16_sees_written_value (st : St) (c : Chain) (w : Val) (e : Nat) (x : Eff)
     (hc : ∀ a ∈ c, a.isFldIdx = true)
     (hni : NoImm st) (he : st.effs[e]? = some x) (hpl : ∀ a ∈ x.chain, a.isPlain = true)
-    (hi : x.iter = false) (hp : (st.val.get (chainPath c)).isSome) :
+    (hi : x.kind = .plain) (hp : (st.val.get (chainPath c)).isSome) :
     let p := chainPath c
     let q := chainPath x.chain
     (runEff (stepOp st (.set c w)).1 e).log =
@@ -1552,6 +1553,39 @@ theorem C16_sees_written_value (st : St) (c : Chain) (w : Val) (e : Nat) (x : Ef
   · intro r u hr hu; rw [hr]; exact get_set_prefix _ _ _ _ _ hu
   · intro h1 h2; exact get_set_unrelated _ _ _ _ h1 h2
 
+/-! ### readers through `OptionStoreExt::map` / `invert` -/
+
+theorem isPlain_take (c : Chain) (n : Nat) (h : ∀ a ∈ c, a.isPlain = true) :
+    ∀ a ∈ c.take n, a.isPlain = true := fun a ha => h a (List.mem_of_mem_take ha)
+
+theorem trackAndRead_subs (st : St) (e : Nat) (c : Chain) (hpl : ∀ a ∈ c, a.isPlain = true) :
+    (trackAndRead st e c).1.subs = (trackSet (chainPath c)).foldl (fun m t => subscribe m e t) st.subs := by
+  obtain ⟨a1, _, _, _, _, _, a7, _⟩ := walk_plainChain st c hpl
+  simp only [trackAndRead, a1, a7]
+
+/-- a reader that goes through `map` / `invert` on the `Option` field addressed by the first `n` accessors of
+its chain is, after every run (the option `Some` or `None`), subscribed to all of `trackSet` of that field:
+with `C16_notify_iff_related` and `notifyAll_noImm` it is woken by every write through the option field,
+through any of its ancestors and through anything below it. -/
+theorem C16_map_reader_subscribes (st : St) (e : Nat) (x : Eff) (n : Nat)
+    (he : st.effs[e]? = some x) (hk : x.kind = .omap) (hpl : ∀ a ∈ x.chain, a.isPlain = true)
+    (hs : optSplit { st with subs := unsubscribeAll st.subs e } x.chain = some n) :
+    ∀ t ∈ trackSet (chainPath (x.chain.take n)), (subsOf (runEff st e).subs t).contains e = true := by
+  intro t ht
+  have hpre := isPlain_take x.chain n hpl
+  have h1 := trackAndRead_subs { st with subs := unsubscribeAll st.subs e } e (x.chain.take n) hpre
+  have hin : (subsOf (trackAndRead { st with subs := unsubscribeAll st.subs e } e (x.chain.take n)).1.subs t).contains e
+      = true := by
+    rw [h1, contains_foldl_subscribe]
+    simp [ht]
+  unfold runEff
+  simp only [he, runKind, hk, hs]
+  split
+  · rw [trackAndRead_subs _ e x.chain hpl, contains_foldl_subscribe, hin]
+    rfl
+  · exact hin
+  · exact hin
+
 /-! ## 7. the state machine on concrete histories: witnesses of the other defects -/
 
 def runOps (st : St) (ops : List Op) : St := ops.foldl (fun s o => (stepOp s o).1) st
@@ -1570,8 +1604,8 @@ def stMid : St := St.init (demoRoot (demoMid [rowV 1 100]) [] [] [])
 /-- F-C16-1 (repaired) end to end: readers of item 11's and item 13's label; after `push 13` a write to
 item 13's label wakes the reader of item 13 only (before fix-c16-1 it woke both) -/
 theorem C16_segment_collision_machine_regression :
-    (runOps stRows [.reader [.kfld 4, .key 11, .fld 1] false false,
-                    .reader [.kfld 4, .key 13, .fld 1] false false,
+    (runOps stRows [.reader [.kfld 4, .key 11, .fld 1] .plain false none,
+                    .reader [.kfld 4, .key 13, .fld 1] .plain false none,
                     .idle,
                     .kpush [.kfld 4] (rowV 13 1300),
                     .idle,
@@ -1611,8 +1645,8 @@ theorem C16_at_index_misses_parent_witness :
 /-- F-C16-4: after `reverse`, key 12 sits at index 0 with segment 2; patching its label notifies path
 `[rows, 0, label]`, the triggers of key 10 -/
 theorem C16_patch_keyed_by_index_witness :
-    let st := runOps stRows [.reader [.kfld 4, .key 10, .fld 1] false false,
-                             .reader [.kfld 4, .key 12, .fld 1] false false,
+    let st := runOps stRows [.reader [.kfld 4, .key 10, .fld 1] .plain false none,
+                             .reader [.kfld 4, .key 12, .fld 1] .plain false none,
                              .idle, .krev [.kfld 4], .idle,
                              .patch [.kfld 4] (.node .kvec [rowV 12 77, rowV 11 1100, rowV 10 1000])]
     st.ready = [0] ∧ (logicalGet st.val [.kfld 4, .key 12, .fld 1] matches .val (.leaf 77)) := by decide
@@ -1620,7 +1654,7 @@ theorem C16_patch_keyed_by_index_witness :
 /-- F-C16-5: after a root write that drops the second row, the woken reader of `rows@11.label`
 indexes out of bounds (the real `AtKeyed::reader` panics) -/
 theorem C16_stale_keys_panic_witness :
-    (runOps stRows [.reader [.kfld 4, .key 12, .fld 1] false false, .idle,
+    (runOps stRows [.reader [.kfld 4, .key 12, .fld 1] .plain false none, .idle,
                     .set [] (demoRoot (demoMid []) [] [] [rowV 10 1000, rowV 11 1100]),
                     .idle]).panicked = true := by decide
 
@@ -1629,20 +1663,46 @@ reader's path collapses to `rows ++ [1]`); push 14 (reuses segment 1); a write t
 the reader of the removed key 11 -/
 theorem C16_removed_key_reader_not_dropped_witness :
     let st := runOps stRows
-      [.reader [.kfld 4, .key 11, .fld 1] false false,
+      [.reader [.kfld 4, .key 11, .fld 1] .plain false none,
        .idle, .kremove [.kfld 4] 1, .idle, .kpush [.kfld 4] (rowV 14 1400), .idle,
        .set [.kfld 4, .key 14, .fld 2, .fld 0] (.leaf 5)]
     st.ready = [0] ∧ (logicalGet st.val [.kfld 4, .key 11, .fld 1] matches .none) ∧
     related [.kfld 4, .key 14, .fld 2, .fld 0] [.kfld 4, .key 11, .fld 1] = false := by decide
+
+/-- the seeded change that the first version of the harness missed: a reader that went through
+`OptionStoreExt::map` while `mid.opt` was `None` **is** woken by a write of the root (an ancestor of the
+option) that makes it `Some`, then sees the inner value; so is a reader through `unwrap()` -/
+theorem C16_option_map_woken_by_ancestor_write :
+    let root (o : List Val) : Val :=
+      .node .struct [.leaf 0, .node .struct [.leaf 0, leafSt 1 2, .node .kvec [], .node .opt o],
+        .node .opt [], .node .vec [], .node .kvec []]
+    let st := runOps (St.init (root []))
+      [.reader [.fld 1, .fld 3, .fld 0, .fld 1] .omap false none,
+       .reader [.fld 1, .fld 3, .fld 0, .fld 1] .plain false none,
+       .idle,
+       .set [] (root [leafSt 5 6])]
+    st.ready = [0, 1] ∧ ((stepOp st .idle).1.log.map (·.1)) = [0, 1] ∧
+    (match (stepOp st .idle).1.log.map (·.2) with | [.val (.leaf 6), .val (.leaf 6)] => true | _ => false) = true := by
+  decide
+
+/-- F-C16-7 (repaired by fix-c16-4): `iter_unkeyed` used to track only `this(list)` and `children(list)`, which
+a write of the root does not notify; now the reader that iterates the empty `list` is woken by the root write
+that fills the list, like the plain reader of `list` -/
+theorem C16_iter_unkeyed_misses_ancestor_witness :
+    (∀ t ∈ rootWriteNotify, t ∉ iterUnkeyedTrackOld [3]) ∧
+    related [] [.fld 3] = true ∧
+    (runOps (St.init (demoRoot (demoMid []) [] [] []))
+      [.reader [.fld 3] .iterU false none, .reader [.fld 3] .plain false none, .idle,
+       .set [] (demoRoot (demoMid []) [] [leafSt 1 1] [])]).ready = [0, 1] := by decide
 
 /-- not a finding (see `C16_wake_order_all_pairs_false`): immediate readers of `mid.inner.v`, `mid.inner`,
 `mid` created in this order; a write through `mid` runs `mid` (woken by `children(mid)`), then
 `mid.inner.v` before `mid.inner` — subscription order among the readers below the written field -/
 theorem C16_subscription_order_below_written_field :
     ((runOps (St.init (demoRoot (demoMid []) [] [] []))
-      [.reader [.fld 1, .fld 1, .fld 0] false true,
-       .reader [.fld 1, .fld 1] false true,
-       .reader [.fld 1] false true,
+      [.reader [.fld 1, .fld 1, .fld 0] .plain true none,
+       .reader [.fld 1, .fld 1] .plain true none,
+       .reader [.fld 1] .plain true none,
        .set [.fld 1] (demoMid [])]).log.map (·.1)) = [2, 0, 1, 2] := by decide
 
 /-! ## 8. non-vacuity of every hypothesis -/
@@ -1665,14 +1725,14 @@ registering readers (of a struct field, of an indexed element's field, of a keye
 them satisfies every hypothesis -/
 def stDemo : St :=
   runOps (St.init (demoRoot (demoMid [rowV 1 100]) [] [leafSt 1 1, leafSt 2 2] []))
-    [.reader [.fld 1, .fld 1, .fld 0] false false, .reader [.fld 3, .idx 0, .fld 0] false false,
-     .reader [.fld 1, .kfld 2] false false, .idle]
+    [.reader [.fld 1, .fld 1, .fld 0] .plain false none, .reader [.fld 3, .idx 0, .fld 0] .plain false none,
+     .reader [.fld 1, .kfld 2] .plain false none, .idle]
 
 example : NoImm stDemo ∧ (stDemo.val.get (chainPath [.fld 3, .idx 1])).isSome = true ∧
     (∀ a ∈ [Acc.fld 3, Acc.idx 1], a.isFldIdx = true) ∧
     (stDemo.effs[2]?.map (·.chain)) = some [.fld 1, .kfld 2] ∧
     (∀ a ∈ [Acc.fld 1, Acc.kfld 2], a.isPlain = true) ∧
-    (stDemo.effs[2]?.map (·.iter)) = some false := by decide
+    (stDemo.effs[2]?.map (·.kind)) = some .plain := by decide
 
 /-- and on it the conclusions can be observed: writing `list[1]` wakes nobody (reader 1 reads `list[0].v`),
 writing `list[0]` wakes reader 1, writing the root wakes all three (the keyed field's reader included) -/
